@@ -925,6 +925,34 @@ class NPProxy:
             return np.sign(concretize(a) if is_symarr(a) else a)
         raise SymUnsupported('sign of symbolic array')
 
+    def gradient(s, f, *varargs, **kw):
+        """numpy.gradient for 1-D data with symbolic entries (numpy's documented formulas: second-order central differences in the interior,
+        for uneven spacing the three-point formula of the numpy reference; first-order one-sided at the ends, edge_order=1)"""
+        s._hit('gradient')
+        fo = np.asarray(f, dtype=object)
+        xs = [np.asarray(v, dtype=object) for v in varargs]
+        if not (has_sym(fo) or any(has_sym(x) for x in xs)):
+            return np.gradient(f, *varargs, **kw)
+        if fo.ndim != 1 or len(xs) > 1 or kw.get('edge_order', 1) != 1 or kw.get('axis') not in (None, 0, -1):
+            raise SymUnsupported('gradient of symbolic data other than 1-D, edge_order=1')
+        n = len(fo)
+        if n < 2:
+            raise ValueError("Shape of array too small to calculate a numerical gradient, at least 2 elements are required.")
+        if not xs:
+            x = [float(i) for i in range(n)]
+        elif xs[0].ndim == 0:
+            x = [xs[0][()] * i for i in range(n)]
+        else:
+            x = list(xs[0])
+        out = [None] * n
+        for i in range(1, n - 1):
+            h1 = x[i] - x[i - 1]; h2 = x[i + 1] - x[i]
+            a = -(h2) / (h1 * (h1 + h2)); b = (h2 - h1) / (h1 * h2); c = h1 / (h2 * (h1 + h2))
+            out[i] = a * fo[i - 1] + b * fo[i] + c * fo[i + 1]
+        out[0] = (fo[1] - fo[0]) / (x[1] - x[0])
+        out[n - 1] = (fo[n - 1] - fo[n - 2]) / (x[n - 1] - x[n - 2])
+        return symarray(out)
+
     def where(s, c, *a):
         s._hit('where')
         if is_symarr(c) and not a:
